@@ -337,13 +337,22 @@ func blockOnListChangeWorker(
 
 	// still need data, so loop until data comes or a cancel condition exists
 	for {
-		if func() bool {
+		if func() (done bool) {
 			timeout := time.Until(end)
 			waitTimer := time.NewTimer(timeout)
 			defer waitTimer.Stop()
 
 			unblockCh := ctx.cs.capture()
-			defer ctx.cs.releaseCapture()
+			defer func() {
+				// an unblock request that was accepted (CLIENT UNBLOCK answered 1) while this
+				// command was leaving the select for another reason still ends the command
+				if late := ctx.cs.releaseCapture(); late != nil && !done {
+					if late.isError {
+						output.data = respErrorString(late.reason)
+					}
+					done = true
+				}
+			}()
 
 			select {
 			case reason := <-unblockCh:
